@@ -386,6 +386,9 @@ pub fn make(comp: &str) -> Box<dyn Machine> {
         "set1" => Box::new(ScanM(ScancodeSet1::new())),
         "set2" => Box::new(ScanM(ScancodeSet2::new())),
         "event" => Box::new(EventM::new(map)),
+        // constructed with the other Ctrl-handling mode: the constructor argument must be honoured
+        "event_ign" => Box::new(EventM::new(HandleControl::Ignore)),
+        "kb2_ign" => Box::new(KbM::new(ScancodeSet2::new(), HandleControl::Ignore)),
         "eventany" => Box::new(EventAnyM(EventDecoder::new(DbgAny(2, any_layout(2)), map))),
         c if c.starts_with("eventany:") => {
             let idx: u8 = c[9..].parse().expect("layout index");
